@@ -109,10 +109,16 @@ class SlotResolver:
         if k in ("CallExpr", "CXXMemberCallExpr"):
             nm0 = tbf.callee_name(n)
             b0 = tbf.call_base(n)
+            if nm0 == "data" and b0 is not None and not tbf.call_args(n) and strip(b0).get("k") in ("MemberExpr", "CXXDependentScopeMemberExpr"):
+                r0 = self.resolve(b0, depth + 1, const_seen)
+                if r0.get("kind") == "arr":
+                    return r0
             if nm0 == "data" and b0 is not None and not tbf.call_args(n) and strip(b0).get("k") == "DeclRefExpr":
                 d0 = self.fm.decls.get(strip(b0).get("did"))
-                if d0 is not None and "array<" in d0.get("t", "").replace(" ", ""):
-                    return self.resolve(b0, depth + 1, const_seen)        # std::array local handed as a pointer
+                if d0 is not None:
+                    r0 = self.resolve(b0, depth + 1, const_seen)
+                    if r0.get("kind") == "arr":
+                        return r0        # std::array local (possibly through a class alias) handed as a pointer
             if nm0 == "size" and (b0 is not None or len(tbf.call_args(n)) == 1):
                 vb = strip(b0 if b0 is not None else tbf.call_args(n)[0])
                 if vb.get("k") == "DeclRefExpr":
@@ -124,6 +130,34 @@ class SlotResolver:
             if a:
                 return a
             return {"kind": "expr", "origin": self.fm.origin(n), "node": n}
+        if k in ("CXXDependentScopeMemberExpr", "MemberExpr") and (not kids(n) or strip(kids(n)[0]).get("k") == "CXXThisExpr"):
+            # an array member of the same object filled by another member function (position codes computed once per execute()):
+            # the fills are that function's, with its own origin model
+            cls = self.fn.get("cls")
+            fld = [f_ for c_ in self.facts.classes if c_["name"] == cls for f_ in c_.get("fields", []) if f_["name"] == n.get("name")]
+            if fld and (fld[0].get("t", "").rstrip().endswith("]") or "array<" in fld[0].get("t", "").replace(" ", "") or "ChildrenPositions" in fld[0].get("t", "") or "Positions" in fld[0].get("t", "")):
+                fillers = []
+                for g in self.facts.methods_of(cls):
+                    if g is self.fn or tbf.body(g) is None or g.get("inst"):
+                        continue
+                    fl = []
+                    for x in walk(tbf.body(g)):
+                        if x.get("k") in ("BinaryOperator", "CXXOperatorCallExpr") and x.get("op") == "=":
+                            lhs = strip(kids(x)[0] if x.get("k") == "BinaryOperator" else kids(x)[1])
+                            rhs = kids(x)[1] if x.get("k") == "BinaryOperator" else kids(x)[2]
+                            base = None
+                            if lhs.get("k") == "ArraySubscriptExpr":
+                                base, idx = strip(kids(lhs)[0]), kids(lhs)[1]
+                            elif lhs.get("k") == "CXXOperatorCallExpr" and lhs.get("op") == "[]" and len(kids(lhs)) >= 3:
+                                base, idx = strip(kids(lhs)[1]), kids(lhs)[2]
+                            if base is not None and base.get("k") in ("MemberExpr", "CXXDependentScopeMemberExpr") and base.get("name") == n.get("name"):
+                                fl.append({"index": idx, "value": rhs, "node": x})
+                    if fl:
+                        fillers.append((g, fl))
+                if len(fillers) == 1:
+                    import stages as _st
+                    return {"kind": "arr", "var": None, "name": n.get("name"), "fills": fillers[0][1], "node": n, "decl": None, "foreign": fillers[0][0], "filler_fm": _st.FnModel(self.facts, fillers[0][0])}
+            return {"kind": "code", "origin": self.fm.origin(n), "member": n.get("name"), "node": n}
         if k in ("CXXDependentScopeMemberExpr", "MemberExpr"):
             return {"kind": "code", "origin": self.fm.origin(n), "member": n.get("name"), "node": n}
         if k == "DeclRefExpr":
@@ -139,6 +173,12 @@ class SlotResolver:
             if did in self.fm.loop_vars:
                 return {"kind": "level" if self.fm.is_level_loop(self.fm.loop_vars[did]) else "loopvar", "origin": self.fm.origin(n), "node": n}
             t = d.get("t", "")
+            # a class-level alias (`using ChildrenPositions = std::array<long int, N>`) names the same type
+            for c_ in self.facts.classes:
+                if c_["name"] == self.fn.get("cls"):
+                    for td in c_.get("typedefs", []):
+                        if re.sub(r"^(const\s+)?(typename\s+)?(\w+::)*", "", t.strip()).rstrip("& ").strip() == td["name"]:
+                            t = td["t"]
             if "vector<" in t and "reference_wrapper" in t:
                 elems = []
                 for x in walk(self.fm.body):
